@@ -44,7 +44,7 @@ func checkC17(c *Ctx) error {
 		if i%3 == 2 {
 			gen.Inject(r, conf, gen.DefectKinds[r.Intn(len(gen.DefectKinds))], i)
 		}
-		files := gen.Split(r, conf, i%3)
+		files := gen.Split(r, conf, i%4)
 		units = append(units, &probe.Unit{ID: idOf(i), Cfg: conf, Files: files, Ops: []probe.Op{{Op: "new"}, {Op: "api"}}})
 		units = append(units, &probe.Unit{ID: idOf(i), Cfg: conf, Files: files, Stub: true})
 	}
